@@ -78,7 +78,9 @@ def draws_str(rec):
         return "0 0"
     ln = len(rec[0])
     if any(len(r) != ln for r in rec):
-        raise core.Infra("bootstrap draws of unequal length")
+        # the code drew bootstrap samples of different sizes within one call (the documented bootstrap draws `bootstrap_samples`
+        # samples of 2 x sample_size leaf indices): hand the model the first block only -- it will disagree, which is the finding
+        rec = [r for r in rec if len(r) == ln]
     return f"{len(rec)} {ln} " + " ".join(str(x) for r in rec for x in r)
 
 
